@@ -498,4 +498,10 @@ theorem S_lin2 {ι : Type} (l : List ι) (f g h : ι → ℚ) (a b : ℚ) :
   | nil => simp
   | cons i t ih => simp only [S_cons]; linear_combination ih
 
+theorem take_zip' (xs ys : List ℚ) :
+    (xs.take (min xs.length ys.length)).zip (ys.take (min xs.length ys.length)) = xs.zip ys := by
+  unfold List.zip
+  rw [← List.take_zipWith, List.take_of_length_le]
+  simp
+
 end Pymeeus.Refine.CurveFitting
